@@ -273,3 +273,247 @@ func ruleResync(c *Ctx) {
 		c.Assume("RESYNC: no scanner call over state.unparsed[state.unparsedPos:] was found; the rule recognises nothing and decides nothing")
 	}
 }
+
+// ---------------------------------------------------------------------------------------------
+// RESYNC-NOTFOUND: a line-cursor update that looks the position up must handle "past the last line".
+
+func ruleResyncNotFound(c *Ctx) {
+	c.Rule("RESYNC-NOTFOUND", "Where the line cursor state.unparsedPos is advanced by the index a position lookup over the remaining lines returned (nodeIndexForPosition over state.unparsed[state.unparsedPos:], negative when no line holds the position), every path on which the lookup's result is negative stores the number of lines (len(state.unparsed)) into the cursor before the function returns. A construct that ends with the very last byte of its paragraph — a multi-line HTML tag whose '>' is the last byte of the input — ends past every line; if the cursor stays where it was, the construct's continuation lines are tokenized a second time and their bytes are covered by two leaves.")
+	p := c.P
+	n := 0
+	for _, fn := range p.Funcs {
+		if fn.Pkg != p.CMs || fn.Blocks == nil {
+			continue
+		}
+		eachInstr(fn, func(in ssa.Instruction) {
+			call, ok := in.(*ssa.Call)
+			if !ok {
+				return
+			}
+			g := call.Call.StaticCallee()
+			if g == nil || !p.InModule(g) || len(call.Call.Args) != 2 {
+				return
+			}
+			sl, ok := restWindow(call.Call.Args[0])
+			if !ok {
+				return
+			}
+			_ = sl
+			if bt, ok := g.Signature.Results().At(0).Type().Underlying().(*types.Basic); !ok || bt.Kind() != types.Int || g.Signature.Results().Len() != 1 {
+				return
+			}
+			// is the result added to the cursor?
+			feeds := false
+			for _, r := range refsOf(call) {
+				if bo, ok := r.(*ssa.BinOp); ok && bo.Op == token.ADD {
+					for _, rr := range refsOf(bo) {
+						if st, ok := rr.(*ssa.Store); ok {
+							if _, ok := isFieldAddr(st.Addr, "inlineState", "unparsedPos"); ok {
+								feeds = true
+							}
+						}
+					}
+				}
+			}
+			if !feeds {
+				return
+			}
+			n++
+			key := fmt.Sprintf("%s:%s#%d", shortFuncName(fn), g.Name(), n)
+			// find the sign test of the result; on its negative edge every path must store len(unparsed) into the cursor
+			isEndStore := func(x ssa.Instruction) bool {
+				st, ok := x.(*ssa.Store)
+				if !ok {
+					return false
+				}
+				if _, ok := isFieldAddr(st.Addr, "inlineState", "unparsedPos"); !ok {
+					return false
+				}
+				if lc, ok := isBuiltinCall(st.Val, "len"); ok {
+					_, ok := isLoadOfField(lc.Call.Args[0], "inlineState", "unparsed")
+					return ok
+				}
+				return false
+			}
+			var negStart *ssa.BasicBlock
+			for _, b := range fn.Blocks {
+				iff := blockIf(b)
+				if iff == nil {
+					continue
+				}
+				bo, ok := iff.Cond.(*ssa.BinOp)
+				if !ok || bo.X != ssa.Value(call) {
+					continue
+				}
+				k, ok := constInt(bo.Y)
+				if !ok {
+					continue
+				}
+				switch {
+				case bo.Op == token.GEQ && k == 0, bo.Op == token.GTR && k == -1:
+					negStart = b.Succs[1]
+				case bo.Op == token.LSS && k == 0, bo.Op == token.LEQ && k == -1:
+					negStart = b.Succs[0]
+				}
+			}
+			if negStart == nil {
+				c.Viol("RESYNC-NOTFOUND", key, call.Pos(), "the lookup's result is added to the line cursor without a test that separates 'not found' (negative) from a found index")
+				return
+			}
+			// every path from negStart to a return passes an end store
+			seen := map[*ssa.BasicBlock]bool{}
+			bad := false
+			var run func(b *ssa.BasicBlock)
+			run = func(b *ssa.BasicBlock) {
+				if seen[b] || bad {
+					return
+				}
+				seen[b] = true
+				for _, x := range b.Instrs {
+					if isEndStore(x) {
+						return
+					}
+					if _, ok := x.(*ssa.Return); ok {
+						bad = true
+						return
+					}
+				}
+				if len(b.Succs) == 0 {
+					return
+				}
+				for _, s := range b.Succs {
+					run(s)
+				}
+			}
+			run(negStart)
+			c.Check(!bad, "RESYNC-NOTFOUND", key, call.Pos(), "when no remaining line holds the position the line cursor is left where it was: the function can return without moving it past the last line")
+		})
+	}
+	c.Analysed["cursor_lookups"] = n
+	if n < 1 {
+		c.Undecided("RESYNC-NOTFOUND", "instance-count", token.NoPos, "no line-cursor lookup found (3 on the reference tree: raw HTML tag, full reference label, inline link; one is enough when they share a helper)")
+	}
+}
+
+func init() {
+	addControls(
+		Control{Name: "html-tag-resync-without-not-found-arm", Props: []string{"C02", "C03"}, File: "inlines.go",
+			Old: "\t\t\t\t\tif i := nodeIndexForPosition(state.unparsed[state.unparsedPos:], pos); i >= 0 {\n\t\t\t\t\t\tstate.unparsedPos += i\n\t\t\t\t\t} else {\n\t\t\t\t\t\tstate.unparsedPos = len(state.unparsed)\n\t\t\t\t\t}",
+			New: "\t\t\t\t\tif i := nodeIndexForPosition(state.unparsed[state.unparsedPos:], pos); i > 0 {\n\t\t\t\t\t\tstate.unparsedPos += i\n\t\t\t\t\t}", Expect: "RESYNC-NOTFOUND/(*InlineParser).parse"},
+	)
+}
+
+// ---------------------------------------------------------------------------------------------
+// TEXT-RESUME: a scanner that adds a node [P+a, P+b) and returns P+k resumes exactly at the node's end.
+
+func ruleTextResume(c *Ctx) {
+	c.Rule("TEXT-RESUME", "In the functions of the inline tokenizer that are handed the state and a position P and return the position to go on from: where the value returned is P plus a constant k and the node last added to the tree in the same straight-line piece of code is a fresh node whose span was given as [P+a, P+b) with constants a, b, then k = b. The caller continues tokenizing at the returned position and takes it as the start of the next plain-text run; returning less than the end of the node just added tokenizes its bytes again (two leaves cover them, siblings overlap), returning more drops bytes.")
+	p := c.P
+	addToRoot := p.Method("inlineState", "addToRoot")
+	if !c.NeedFunc("TEXT-RESUME", addToRoot, "(*inlineState).addToRoot") {
+		return
+	}
+	n := 0
+	for _, fn := range p.Funcs {
+		if fn.Pkg != p.CMs || fn.Blocks == nil || fn.Signature.Results().Len() != 1 {
+			continue
+		}
+		if bt, ok := fn.Signature.Results().At(0).Type().Underlying().(*types.Basic); !ok || bt.Kind() != types.Int {
+			continue
+		}
+		hasState := false
+		var posParams []*ssa.Parameter
+		for _, q := range fn.Params {
+			if typeName(deref(q.Type())) == "inlineState" {
+				hasState = true
+			}
+			if bt, ok := q.Type().Underlying().(*types.Basic); ok && bt.Kind() == types.Int {
+				posParams = append(posParams, q)
+			}
+		}
+		if !hasState || len(posParams) == 0 {
+			continue
+		}
+		isPos := func(v ssa.Value) bool {
+			for _, q := range posParams {
+				if v == ssa.Value(q) {
+					return true
+				}
+			}
+			return false
+		}
+		site := 0
+		for _, r := range returnsOf(fn) {
+			base, k := linTerm(r.Results[0])
+			if !isPos(base) {
+				continue
+			}
+			// last addToRoot call in the return's block
+			var last *ssa.Call
+			for _, x := range r.Block().Instrs {
+				if x == ssa.Instruction(r) {
+					break
+				}
+				if call, ok := x.(*ssa.Call); ok && call.Call.StaticCallee() == addToRoot {
+					last = call
+				}
+			}
+			if last == nil || len(last.Call.Args) != 2 {
+				continue
+			}
+			al, ok := last.Call.Args[1].(*ssa.Alloc)
+			if !ok {
+				continue
+			}
+			// span stores of the fresh node
+			var endV ssa.Value
+			nEnd := 0
+			for _, ref := range refsOf(al) {
+				fa, ok := ref.(*ssa.FieldAddr)
+				if !ok {
+					continue
+				}
+				if tn, f, _ := fieldAddrInfo(fa); tn != "Inline" || f != "span" {
+					continue
+				}
+				for _, r2 := range refsOf(fa) {
+					fa2, ok := r2.(*ssa.FieldAddr)
+					if !ok {
+						continue
+					}
+					if _, f2, _ := fieldAddrInfo(fa2); f2 != "End" {
+						continue
+					}
+					for _, r3 := range refsOf(fa2) {
+						if st, ok := r3.(*ssa.Store); ok && st.Addr == ssa.Value(fa2) {
+							endV = st.Val
+							nEnd++
+						}
+					}
+				}
+			}
+			if nEnd != 1 {
+				continue
+			}
+			eb, b := linTerm(endV)
+			if eb != base {
+				continue
+			}
+			n++
+			site++
+			c.Check(k == b, "TEXT-RESUME", fmt.Sprintf("%s:return#%d", shortFuncName(fn), site), r.Pos(), fmt.Sprintf("the node just added ends at the position parameter + %d, the function returns the position parameter + %d", b, k))
+		}
+	}
+	c.Analysed["resume_after_fresh_node_sites"] = n
+	if n < 5 {
+		c.Undecided("TEXT-RESUME", "instance-count", token.NoPos, fmt.Sprintf("%d sites found where a function adds a node at constant offsets from its position parameter and returns such an offset; 5 confirmed by hand in parseEndBracket and parseBackslash", n))
+	}
+}
+
+func init() {
+	addControls(
+		Control{Name: "unmatched-collapsed-reference-resumes-after-first-bracket", Props: []string{"C02", "C03"}, File: "inlines.go",
+			Old: "\t\t\tstate.stack = deleteDelimiterStack(state.stack, openDelimIndex, openDelimIndex+1)\n\t\t\treturn start + 3\n", New: "\t\t\tstate.stack = deleteDelimiterStack(state.stack, openDelimIndex, openDelimIndex+1)\n\t\t\treturn start + 1\n", Expect: "TEXT-RESUME/(*InlineParser).parseEndBracket",
+			Why: "'[text][]' without a definition: '][]' is added as text and then '[' and ']' are tokenized again"},
+	)
+}
